@@ -258,13 +258,16 @@ Fixpoint exec (g : group) (l : list op) : list (group * op * out * group) :=
      has no members;
    - in Delete(name) (group.Update, for an expired idle group): only if the
      object has no members.
-   A joiner keeps the pointer that its own Add returned: its admission step
-   runs on that object whether or not it is still registered.
+   A joiner keeps the pointer that its own Add returned; since 35083b1 its
+   entry step refuses an object that was dropped in between and the joiner
+   looks the name up again.
 
      TWrite f   the description file is replaced (None: removed / unreadable)
      TAdd       add(name, nil) under groups.mu (+ Group.mu of the registered
                 object): create, or reload, or fail
-     TOn k s    one critical section s (not SAdd) of Group.mu of object k
+     TOn k s    one critical section s (not SAdd) of Group.mu of object k; the
+                entry step gives up an object that is no longer registered
+                (Group.deleted) and the joiner calls Add again
      TDelete    Delete(name)                                               *)
 
 Record table := mkTable {
@@ -286,6 +289,7 @@ Inductive tres :=
 | TAddOk (k : nat) (ev : list event) (* Add returned object k *)
 | TAddErr                            (* Add returned an error *)
 | TOut (o : out)
+| TRetry                             (* AddClient found the object marked deleted: Add again *)
 | TDeleted (b : bool).
 
 Fixpoint upd {A} (k : nat) (x : A) (l : list A) : list A :=
@@ -298,7 +302,16 @@ Fixpoint upd {A} (k : nat) (x : A) (l : list A) : list A :=
 Definition no_clients (g : group) : bool :=
   match g_clients g with [] => true | _ => false end.
 
-Definition tstep (t : table) (s : top) : table * tres :=
+Definition is_cur (t : table) (k : nat) : bool :=
+  match t_cur t with Some k' => Nat.eqb k k' | None => false end.
+
+(* [fixed] = the code since 35083b1: deleteUnlocked marks the object it drops
+   (Group.deleted, under groups.mu and Group.mu), and AddClient, once it
+   holds Group.mu, gives up a marked object and calls Add again.  An object
+   is registered from its creation until it is dropped and never again, so
+   "marked" is "not the registered object".  [fixed = false] is the code
+   before that commit (kept for the regression witness only). *)
+Definition tstep_gen (fixed : bool) (t : table) (s : top) : table * tres :=
   match s with
   | TWrite f => (mkTable (t_objs t) (t_cur t) f true, TWritten)
   | TAdd =>
@@ -332,15 +345,17 @@ Definition tstep (t : table) (s : top) : table * tres :=
           end
       end
   | TOn k s =>
+      let run_it :=
+        match nth_error (t_objs t) k with
+        | None => (t, TNone)
+        | Some g =>
+            let r := step g s in
+            (mkTable (upd k (fst r) (t_objs t)) (t_cur t) (t_file t) (t_dirty t), TOut (snd r))
+        end in
       match s with
       | SAdd _ => (t, TNone)
-      | _ =>
-          match nth_error (t_objs t) k with
-          | None => (t, TNone)
-          | Some g =>
-              let r := step g s in
-              (mkTable (upd k (fst r) (t_objs t)) (t_cur t) (t_file t) (t_dirty t), TOut (snd r))
-          end
+      | SAddClient _ _ => if fixed && negb (is_cur t k) then (t, TRetry) else run_it
+      | _ => run_it
       end
   | TDelete =>
       match t_cur t with
@@ -356,12 +371,21 @@ Definition tstep (t : table) (s : top) : table * tres :=
       end
   end.
 
+Definition tstep : table -> top -> table * tres := tstep_gen true.
+
 Definition tinit : table := mkTable [] None None false.
 
 Fixpoint trun (t : table) (l : list top) : table :=
   match l with
   | [] => t
   | s :: l' => trun (fst (tstep t s)) l'
+  end.
+
+(* the same for the code before 35083b1 *)
+Fixpoint trun_prefix (t : table) (l : list top) : table :=
+  match l with
+  | [] => t
+  | s :: l' => trun_prefix (fst (tstep_gen false t s)) l'
   end.
 
 Fixpoint texec (t : table) (l : list top) : list (table * top * tres * table) :=
